@@ -538,6 +538,216 @@ Definition e2e_pn_judge (case out : list Z) : bool :=
   | _ => false
   end.
 
+(* ------------------------------------------------------------------------------------------ *)
+(* e2e_cid (C13): connection ids issued and retired                                           *)
+(* ------------------------------------------------------------------------------------------ *)
+(* [1, watchdog, connect_ok, limit_client, limit_server, capped, n_rows, rows x8]
+   row = (kind, endpoint, seq, retire_prior_to, id hash, token hash, dcid hash, t_us):
+   0 NEW_CONNECTION_ID sent   1 RETIRE_CONNECTION_ID sent (dcid hash: destination id of its datagram)
+   2 NEW_CONNECTION_ID received   3 RETIRE_CONNECTION_ID received
+   4 datagram dropped for an unknown destination id (id hash)
+   5 the endpoint's handshake connection id, sequence number 0 (id hash)
+   6 transport parameters received: the seq field holds the peer's active_connection_id_limit
+   (s2n-quic advertises 3 whatever Limits::with_max_active_connection_ids is set to, so the
+   limit is read from the trace and the configured values in the header are informational) *)
+
+Definition c_seq (r : xrow) : Z := x_sp r.
+Definition c_rpt (r : xrow) : Z := x_a r.
+Definition c_id (r : xrow) : Z := x_b r.
+Definition c_tok (r : xrow) : Z := x_t r.
+Definition c_dcid (r : xrow) : Z := x_c r.
+
+Definition kind_of (k ep : Z) (r : xrow) : bool := (x_k r =? k) && (x_ep r =? ep).
+
+Definition max_of (f : xrow -> Z) (l : list xrow) : Z := fold_right (fun r m => Z.max (f r) m) 0 l.
+
+Fixpoint mem_z (x : Z) (l : list Z) : bool :=
+  match l with [] => false | y :: t => (x =? y) || mem_z x t end.
+
+Fixpoint dedup (l : list Z) : list Z :=
+  match l with [] => [] | x :: t => if mem_z x t then dedup t else x :: dedup t end.
+
+(* [pre] = the rows before [r] (any order) *)
+Definition cid_check (limit_c limit_s : Z) (pre : list xrow) (r : xrow) : bool :=
+  let e := x_ep r in
+  let mine := filter (kind_of 0 e) pre in          (* NEW_CONNECTION_ID frames e sent before *)
+  let own0 := filter (kind_of 5 e) pre in          (* e's handshake id *)
+  let retired := map c_seq (filter (kind_of 3 e) pre) in   (* RETIRE_CONNECTION_ID frames e received *)
+  if x_k r =? 0 then
+    (* a repeated sequence number repeats the same id and token; a new one brings a new id and token *)
+    forallb (fun o => if c_seq o =? c_seq r then (c_id o =? c_id r) && (c_tok o =? c_tok r)
+                      else negb (c_id o =? c_id r) && negb (c_tok o =? c_tok r)) mine &&
+    forallb (fun o => negb (c_id o =? c_id r)) own0 &&
+    (* sequence numbers are consecutive *)
+    (1 <=? c_seq r) && (c_seq r <=? max_of c_seq mine + 1) &&
+    (* retire_prior_to never exceeds the frame's own sequence number *)
+    (c_rpt r <=? c_seq r) &&
+    (* ids issued, not retired by the peer and not below the largest retire_prior_to sent: within
+       the active_connection_id_limit received from the peer (2 if none was received) *)
+    (let rp := Z.max (c_rpt r) (max_of c_rpt mine) in
+     let seqs := dedup (0 :: c_seq r :: map c_seq mine) in
+     Z.of_nat (length (filter (fun s => (rp <=? s) && negb (mem_z s retired)) seqs))
+       <=? Z.max 2 (max_of c_seq (filter (kind_of 6 e) pre)))
+  else if x_k r =? 1 then
+    let theirs := filter (kind_of 2 e) pre in      (* NEW_CONNECTION_ID frames e received *)
+    let peer0 := filter (kind_of 5 (1 - e)) pre in
+    (* only ids the peer issued (or implied by its retire_prior_to) are retired *)
+    ((c_seq r <=? max_of c_seq theirs) || (c_seq r <? max_of c_rpt theirs)) && (0 <=? c_seq r) &&
+    (* and never in a packet addressed to that very id *)
+    ((c_dcid r =? -1) ||
+     (forallb (fun o => negb ((c_seq o =? c_seq r) && (c_id o =? c_dcid r))) theirs &&
+      forallb (fun o => negb ((c_seq r =? 0) && (c_id o =? c_dcid r))) peer0))
+  else if x_k r =? 4 then
+    (* a datagram for an id this endpoint issued is only dropped as unknown once the peer retired
+       the id or this endpoint asked for its retirement *)
+    forallb (fun o => if c_id o =? c_id r
+                      then mem_z (c_seq o) retired || (c_seq o <? max_of c_rpt mine) else true)
+            (mine ++ own0)
+  else true.
+
+Fixpoint cid_scan (lc ls : Z) (pre : list xrow) (l : list xrow) : bool :=
+  match l with
+  | [] => true
+  | r :: t => cid_check lc ls pre r && cid_scan lc ls (r :: pre) t
+  end.
+
+Definition e2e_cid_judge (case out : list Z) : bool :=
+  if negb ((nz out 0 =? 1) && Nat.leb 7 (length out)) then false else
+  match take_rows 8 (nz out 6) (skipn 7 out) with
+  | Some (rws, []) => cid_scan (nz out 3) (nz out 4) [] (map mk_xrow rws)
+  | _ => false
+  end.
+
+(* ------------------------------------------------------------------------------------------ *)
+(* e2e_cc (C09 / C10): loss detection and congestion control bookkeeping, sender side         *)
+(* ------------------------------------------------------------------------------------------ *)
+(* [1, watchdog, connect_ok, cc (0 cubic, 1 bbr), capped, n_rows, rows x8]
+   row = (kind, endpoint, x, a, b, c, d, t_us):
+   0 packet sent: x space, a packet number, b bytes, c ack eliciting, d mode (0 normal, 1 loss
+     recovery probe, 2 MTU probe, 3 path validation)
+   1 ACK range received: x space, a..=b      2 packet lost: x space, a pn, c = is MTU probe
+   3 recovery metrics: a cwnd, b bytes_in_flight, c smoothed rtt, d latest rtt (us)
+   4 key space discarded: x space   5 congestion event   6 MTU updated: a   7 connection closed *)
+
+Definition g_x (r : xrow) := x_sp r.
+Definition g_a (r : xrow) := x_a r.
+Definition g_b (r : xrow) := x_b r.
+Definition g_c (r : xrow) := x_t r.
+Definition g_d (r : xrow) := x_c r.
+Definition g_time (r : xrow) := x_d r.
+
+(* an unresolved sent packet *)
+Record upkt := { u_sp : Z; u_pn : Z; u_bytes : Z; u_el : Z; u_t : Z }.
+
+Record ccst := {
+  s_unres : list upkt;          (* sent, not acknowledged, not lost, space not discarded *)
+  s_largest : Z -> Z;           (* largest acknowledged packet number per space, -1 if none *)
+  s_cwnd : Z; s_srtt : Z; s_latest : Z; s_mtu : Z;
+  s_bif : Z;                    (* bytes of the unresolved ack-eliciting packets *)
+  s_after_cong : bool;          (* a congestion event happened and no packet was sent since *)
+  s_discard_t : Z;              (* time of the last key space discard *)
+  s_pending : list (Z * Z)      (* losses waiting for the next rtt values: (age, packet number) *)
+}.
+
+Definition cc_init : ccst :=
+  {| s_unres := []; s_largest := fun _ => -1; s_cwnd := 12000; s_srtt := 333000; s_latest := 333000;
+     s_mtu := 1200; s_bif := 0; s_after_cong := false; s_discard_t := -1; s_pending := [] |}.
+
+Definition el_bytes (l : list upkt) : Z :=
+  fold_right (fun u a => if u_el u =? 1 then u_bytes u + a else a) 0 l.
+
+(* RFC 9002 6.1.2: 9/8 * max(smoothed_rtt, latest_rtt), at least the 1 ms granularity *)
+Definition time_threshold (srtt latest : Z) : Z := Z.max (9 * Z.max srtt latest / 8) 1000.
+
+Definition covered (sp lo hi : Z) (u : upkt) : bool := (u_sp u =? sp) && (lo <=? u_pn u) && (u_pn u <=? hi).
+Definition is_pkt (sp pn : Z) (u : upkt) : bool := (u_sp u =? sp) && (u_pn u =? pn).
+
+Definition cc_check (cc : Z) (s : ccst) (r : xrow) : bool :=
+  if x_k r =? 0 then
+    (* packet numbers in flight are not reused; a congestion controlled packet in normal mode
+       is sent only below the window, except the one packet after a congestion event *)
+    negb (existsb (is_pkt (g_x r) (g_a r)) (s_unres s)) &&
+    (if (g_c r =? 1) && (g_d r =? 0) then (s_bif s <? s_cwnd s) || s_after_cong s else true)
+  else if x_k r =? 2 then
+    match find (is_pkt (g_x r) (g_a r)) (s_unres s) with
+    | None => false                               (* lost, but not in flight: resolved twice *)
+    | Some u =>
+        if g_c r =? 1 then true else              (* MTU probes have their own timer *)
+        let lg := s_largest s (g_x r) in
+        (* a later packet was acknowledged; the packet / time threshold is judged in cc_upd:
+           packet threshold 3, or the time threshold with the rtt values before this ACK, or
+           (s_pending) with the rtt values of the next recovery metrics *)
+        g_a r <? lg
+    end
+  else if x_k r =? 3 then
+    (* bytes_in_flight is the sum over the unresolved ack-eliciting packets (not compared at
+       the instant of a key space discard, where the event order is not fixed) *)
+    ((g_time r =? s_discard_t s) || (g_b r =? s_bif s)) && (0 <=? g_b r) &&
+    (* minimum window: 2 (cubic) / 4 (bbr) maximum datagram sizes *)
+    ((if cc =? 0 then 2 else 4) * s_mtu s <=? g_a r) &&
+    (* time threshold losses against the rtt values this ACK produced *)
+    forallb (fun p => time_threshold (g_c r) (g_d r) <=? fst p) (s_pending s)
+  else true.
+
+Definition cc_upd (s : ccst) (r : xrow) : ccst :=
+  if x_k r =? 0 then
+    {| s_unres := {| u_sp := g_x r; u_pn := g_a r; u_bytes := g_b r; u_el := g_c r; u_t := g_time r |} :: s_unres s;
+       s_largest := s_largest s; s_cwnd := s_cwnd s; s_srtt := s_srtt s; s_latest := s_latest s; s_mtu := s_mtu s;
+       s_bif := if g_c r =? 1 then s_bif s + g_b r else s_bif s;
+       s_after_cong := if (g_c r =? 1) && (g_d r =? 0) then false else s_after_cong s;
+       s_discard_t := s_discard_t s; s_pending := s_pending s |}
+  else if x_k r =? 1 then
+    let gone := filter (covered (g_x r) (g_a r) (g_b r)) (s_unres s) in
+    {| s_unres := filter (fun u => negb (covered (g_x r) (g_a r) (g_b r) u)) (s_unres s);
+       s_largest := fun sp => if sp =? g_x r then Z.max (s_largest s sp) (g_b r) else s_largest s sp;
+       s_cwnd := s_cwnd s; s_srtt := s_srtt s; s_latest := s_latest s; s_mtu := s_mtu s;
+       s_bif := s_bif s - el_bytes gone; s_after_cong := s_after_cong s;
+       s_discard_t := s_discard_t s; s_pending := s_pending s |}
+  else if x_k r =? 2 then
+    let gone := filter (is_pkt (g_x r) (g_a r)) (s_unres s) in
+    let lg := s_largest s (g_x r) in
+    let age := match find (is_pkt (g_x r) (g_a r)) (s_unres s) with Some u => g_time r - u_t u | None => 0 end in
+    let by_prev := (g_c r =? 1) || (3 <=? lg - g_a r) || (time_threshold (s_srtt s) (s_latest s) <=? age) in
+    {| s_unres := filter (fun u => negb (is_pkt (g_x r) (g_a r) u)) (s_unres s);
+       s_largest := s_largest s; s_cwnd := s_cwnd s; s_srtt := s_srtt s; s_latest := s_latest s; s_mtu := s_mtu s;
+       s_bif := s_bif s - el_bytes gone; s_after_cong := s_after_cong s; s_discard_t := s_discard_t s;
+       s_pending := if by_prev then s_pending s else (age, g_a r) :: s_pending s |}
+  else if x_k r =? 3 then
+    {| s_unres := s_unres s; s_largest := s_largest s; s_cwnd := g_a r; s_srtt := g_c r; s_latest := g_d r;
+       s_mtu := s_mtu s; s_bif := s_bif s; s_after_cong := s_after_cong s; s_discard_t := s_discard_t s;
+       s_pending := [] |}
+  else if x_k r =? 4 then
+    let gone := filter (fun u => u_sp u =? g_x r) (s_unres s) in
+    {| s_unres := filter (fun u => negb (u_sp u =? g_x r)) (s_unres s);
+       s_largest := s_largest s; s_cwnd := s_cwnd s; s_srtt := s_srtt s; s_latest := s_latest s; s_mtu := s_mtu s;
+       s_bif := s_bif s - el_bytes gone; s_after_cong := s_after_cong s; s_discard_t := g_time r;
+       s_pending := s_pending s |}
+  else if x_k r =? 5 then
+    {| s_unres := s_unres s; s_largest := s_largest s; s_cwnd := s_cwnd s; s_srtt := s_srtt s; s_latest := s_latest s;
+       s_mtu := s_mtu s; s_bif := s_bif s; s_after_cong := true; s_discard_t := s_discard_t s; s_pending := s_pending s |}
+  else if x_k r =? 6 then
+    {| s_unres := s_unres s; s_largest := s_largest s; s_cwnd := s_cwnd s; s_srtt := s_srtt s; s_latest := s_latest s;
+       s_mtu := g_a r; s_bif := s_bif s; s_after_cong := s_after_cong s; s_discard_t := s_discard_t s;
+       s_pending := s_pending s |}
+  else s.
+
+(* the rows of one endpoint, up to the close of its connection *)
+Fixpoint cc_scan (cc : Z) (s : ccst) (l : list xrow) : bool :=
+  match l with
+  | [] => true
+  | r :: t => if x_k r =? 7 then true else cc_check cc s r && cc_scan cc (cc_upd s r) t
+  end.
+
+Definition e2e_cc_judge (case out : list Z) : bool :=
+  if negb ((nz out 0 =? 1) && Nat.leb 6 (length out)) then false else
+  match take_rows 8 (nz out 5) (skipn 6 out) with
+  | Some (rws, []) =>
+      let l := map mk_xrow rws in
+      cc_scan (nz out 3) cc_init (filter (fun r => x_ep r =? 0) l) &&
+      cc_scan (nz out 3) cc_init (filter (fun r => x_ep r =? 1) l)
+  | _ => false
+  end.
+
 (* the same trace judged for one property only (so that each property's check reports only its own
    violations when the component is attached to several properties) *)
 Definition stream_part (m : strace -> bool) (out : list Z) : bool :=
